@@ -52,6 +52,10 @@ type RunResult struct {
 // Family is one workload family of a property.
 type Family struct {
 	Name string
+	// Sweep: after a base run (Param 0) the worker runs the same seed with
+	// Param 1..res.Sweep (complete single-fault enumeration relative to
+	// the base run)
+	Sweep bool
 	Run  func(w *World, spec *RunSpec, res *RunResult)
 	// Weight in the random swarm (0: only used by sweeps)
 	Weight int
@@ -169,8 +173,45 @@ func RunFlow(w *World, spec *RunSpec, tune func(f *Flow)) *Flow {
 	}
 	w.Broker.Opts.Refuse = f.Refuse
 	w.Budget = f.O.Budget
-	f.runGeneration(false)
-	for _, m := range f.Mon {
+	if f.O.Generations < 1 {
+		f.O.Generations = 1
+	}
+	f.AdoptWarn = map[int][]error{}
+	f.DamagedGen = map[int]bool{}
+	f.adopted = map[int]bool{}
+	f.Carry = map[[2]int]bool{}
+	w.StopParam = spec.Param - 1 // Param 0: no stop
+	for g := 1; g <= f.O.Generations; g++ {
+		if g > 1 {
+			f.prepareAdoption()
+			if f.BetweenGens != nil {
+				f.BetweenGens(f, g)
+			}
+			w.StopParam = -1
+			if g < f.O.Generations && f.O.StopW == 0 {
+				// later stops land at a drawn storage-operation boundary
+				w.StopParam = w.Tape.Draw("stop-later", 60)
+			}
+		}
+		w.StopBase = len(w.Disk.Log)
+		if g == 1 {
+			w.StopBase = 1 << 30 // stop points count from the end of InitSession
+		}
+		f.runGeneration(g > 1)
+		if g == 1 {
+			f.Gen1Ops = len(w.Disk.Log) - w.StopBase
+		}
+		if f.FatalSetup != nil || w.Inconcl != "" {
+			break
+		}
+		if g < f.O.Generations && !f.S.Stopped {
+			// the incarnation quiesced before its stop point: a stop
+			// at rest
+			f.OnStop(f.S)
+		}
+	}
+	res := f
+	for _, m := range res.Mon {
 		m.Final(f)
 	}
 	return f
@@ -208,12 +249,28 @@ func (f *Flow) runGeneration(adopt bool) {
 				c, err = mqtt.InitSession(o.ClientID, w.Disk, f.config(s))
 			} else {
 				var warn []error
+				f.adopted[w.Gen] = true
 				c, warn, err = mqtt.AdoptSession(w.Disk, f.config(s))
-				_ = warn
+				f.AdoptWarn[w.Gen] = warn
+				if err != nil && !s.dead {
+					f.AdoptFatal = err
+				}
+				for _, e := range warn {
+					w.Ev("adopt", w.Gen, "warning: %v", e)
+				}
+				if err != nil {
+					w.Ev("adopt", w.Gen, "fatal: %v", err)
+				}
+			}
+			if w.StopBase == 0 || !adopt {
+				// stop points count from the end of InitSession
+				w.StopBase = len(w.Disk.Log)
 			}
 			w.FaultsOff = faultsOff
 			if err != nil {
-				f.FatalSetup = err
+				if !s.dead {
+					f.FatalSetup = err
+				}
 				f.pubTasksLive = 0
 				f.reqTasksLive = 0
 				return
@@ -265,7 +322,7 @@ func (m *monC01) Step(f *Flow) {
 				w.Probe("completed_publish")
 			}
 		}
-		if pb.Ret != 0 && !m.checkedC[pb.Idx] {
+		if pb.Ret != 0 && !m.checkedC[pb.Idx] && !pb.Zombie && pb.Gen == w.Gen {
 			m.checkedC[pb.Idx] = true
 			if pb.Accepted() {
 				if pb.FirstWire == 0 && len(pb.ExErrs) == 0 && !pb.ExClosed {
@@ -328,10 +385,10 @@ func (m *monC01) Final(f *Flow) {
 		if seen[pb.Topic] == 0 {
 			miss = append(miss, "never-delivered")
 		}
-		if !pb.ExClosed {
+		if !pb.ExClosed && pb.Gen == w.Gen && !pb.Zombie {
 			miss = append(miss, "exchange-open")
 		}
-		if !pb.Deleted {
+		if !pb.Deleted && (pb.Gen == w.Gen || pb.Resumed) {
 			miss = append(miss, "record-remains")
 		}
 		if len(miss) != 0 {
@@ -362,7 +419,7 @@ func (f *Flow) stuckWhere() string {
 }
 
 func allMonitors() []Monitor {
-	return []Monitor{&monC01{}, &monC03{}, &monC04{}, &monC05{}, &monC06{}, &monC07{}, &monC08{}, &monC10{}, &monC11{}, &monC14{}, &monC17{}, &monC18{}}
+	return []Monitor{&monC01{}, &monC02{}, &monC03{}, &monC04{}, &monC05{}, &monC06{}, &monC07{}, &monC08{}, &monC10{}, &monC11{}, &monC14{}, &monC17{}, &monC18{}}
 }
 
 // flowFamily builds a family around the general flow. touched names the probes
@@ -376,6 +433,9 @@ func flowFamily(tune func(f *Flow), touched ...string) func(w *World, spec *RunS
 			}
 		})
 		res.Summary = f.summary()
+		if spec.Param == 0 && f.O.Generations > 1 {
+			res.Sweep = 2 * f.Gen1Ops
+		}
 		for _, p := range touched {
 			if w.Probes[p] > 0 || w.Faults[p] > 0 {
 				res.Touched = true
@@ -408,6 +468,33 @@ func init() {
 			f.O.Requesters = 1 + f.W.Tape.Draw("nreq", 2)
 			f.O.PerReq = 1 + f.W.Tape.Draw("perreq", 5)
 		}, "retransmitted", "accepted_while_down")})
+	restartTune := func(q2 int) func(f *Flow) {
+		return func(f *Flow) {
+			o := &f.O
+			o.Generations = 2 + f.W.Tape.Draw("gens", 3)
+			o.FaultFreeAfterStop = true
+			// a clean session requested by the adopted client makes the
+			// broker forget which exactly-once identifiers it has seen:
+			// duplicates are then the user's choice, not a defect
+			o.Clean = false
+			o.Publishers = 1 + f.W.Tape.Draw("npubR", 2)
+			o.PerPub = 1 + f.W.Tape.Draw("perpubR", 5)
+			if q2 >= 0 {
+				o.Q2 = q2
+			}
+			o.ALOMax, o.EOMax = 64, 64
+			if o.Budget > 3 {
+				o.Budget = 3
+			}
+		}
+	}
+	register("C02", Family{Name: "stops", Weight: 3, Sweep: true, Run: flowFamily(restartTune(-1), "resumed_after_restart")},
+		Family{Name: "anywhere", Weight: 1, Run: flowFamily(func(f *Flow) {
+			restartTune(-1)(f)
+			f.O.StopW = 1
+			f.O.FaultFreeAfterStop = false
+		}, "resumed_after_restart")})
+	register("C03", Family{Name: "stops", Weight: 1, Sweep: true, Run: flowFamily(restartTune(1000), "resumed_after_restart", "pubrel_resent")})
 	register("C03", Family{Name: "flow", Weight: 1, Run: flowFamily(func(f *Flow) {
 		f.O.Q2 = 1000
 		if f.W.Tape.Flip("someq1", 300) {
